@@ -61,6 +61,8 @@ manifest = {
     "engines": [
         {"name": "lean4-model+correspondence", "path": "lean/ProcSim", "serves_properties": [c["property_id"] for c in checks],
          "kind_free_text": "Lean 4 library (models, Bool specs, lemmas, property theorems) + compiled line-protocol driver psdriver; Python harness under harness/ runs the real code in-process and diffs"},
+        {"name": "py2lean-translator-tie", "path": "checks/py2lean.py", "serves_properties": ["C01", "C02", "C04", "C05", "C19"],
+         "kind_free_text": "translator Python ast -> Lean definitions over ProcSim/PyLite.lean (src/reg_access.py, the access-plan builder of src/sim_services/__init__.py, src/sim_services/_utils.py), regenerated on every run; equivalence theorems ProcSim.GenTie.* re-checked by Lean against the regenerated text (checks/translator_tie.py)"},
     ],
     "checks": checks,
     "notes": "Three genuine defects of the pinned tree were repaired with fix: commits in /repo (ba730e2, 58bded6, f90634d; see known_findings.json and DESIGN.md §11.3). Exit 2 of a check = infrastructure failure, never a verdict. theorems.json is the registry of audited theorems; DESIGN.md §11 is the as-built record.",
